@@ -20,8 +20,11 @@ def run(patch, props, verbose=False):
             if r.returncode != 0:
                 return {'error': 'patch does not apply: ' + r.stderr[:500]}
         res = {}
+        tgt = os.path.join(d, 'target')
+        if os.path.isdir(os.path.join(VERIF, '.cache', 'target')):
+            subprocess.run(['cp', '-r', os.path.join(VERIF, '.cache', 'target'), tgt], check=True)
         for p in props:
-            env = dict(os.environ, SFA_EVIDENCE_DIR=ev)
+            env = dict(os.environ, SFA_EVIDENCE_DIR=ev, SFA_TARGET_DIR=tgt)
             r = subprocess.run([os.path.join(VERIF, 'check'), p, '--src', src], capture_output=True, text=True, env=env)
             viol = [l for l in r.stdout.splitlines() if l.startswith('  ' + p + ':')]
             res[p] = {'rc': r.returncode, 'violations': [v.strip()[:300] for v in viol]}
